@@ -258,6 +258,7 @@ def run_case(g, thorough: bool) -> Case:
             val_idx[(t.name, i)] = len(cmds)
             cmds.append([Sym("coerce"), ssx, tsx, json_sx(v)])
             cmds.append([Sym("validate"), ssx, csx, snake, tsx, json_sx(v)])
+            cmds.append([Sym("rename"), ssx, snake, tsx, json_sx(v)])
     res = model.batch("C06", cmds, jobs=1)
     for r in res:
         if model.is_error(r):
@@ -358,6 +359,13 @@ def run_case(g, thorough: bool) -> Case:
             for i, ((label, v), row) in enumerate(zip(vals, rows)):
                 base = val_idx[(tn, i)]
                 m_co, m_va = res[base], res[base + 1]
+                # K2d: the by-name form of the theorem (Model/Inputs.v rename) vs the key renaming done with the real
+                # classes' alias tables (only where names do not collide and the value is schema-valid)
+                if "renamed" in row and label in ("min", "full", "nulls", "rand") and \
+                        not (iv.reachable_inputs(t, v) & collide):
+                    if not eq_json(sx_json(res[base + 2]), row["renamed"]):
+                        cs.broken("K2 rename (by Python name) vs real classes",
+                                  f"{tn} {v!r}: model {sx_json(res[base + 2])!r} real {row['renamed']!r}")
                 cs.c("evaluations")
                 cs.d("value_kind", label)
                 if label in ("nulls", "rand") and iv.f21_null(t, v):
